@@ -135,7 +135,7 @@ WithCap(p, c) == (c.op = "with_capacity" /\ c.cls = "ok") => CapGE(p.hd[T(c)].ca
 ReservePost(o, p, c) ==                                                        \* C11 C06
   (c.op = "reserve" /\ c.cls = "ok") =>
      /\ CapGE(p.hd[T(c)].cap, o.hd[T(c)].len, c.n)
-     /\ c.n > 0 => (p.hd[T(c)].k \in {"I", "H"} /\ (p.hd[T(c)].k = "H" => p.hd[T(c)].rc = 1))
+     /\ p.hd[T(c)].k \in {"I", "H"} /\ (p.hd[T(c)].k = "H" => p.hd[T(c)].rc = 1)      \* for every n, 0 included
 Exclusive(o, h) == o.hd[h].k = "I" \/ (o.hd[h].k = "H" /\ o.hd[h].rc = 1)
 NoReallocInCap(o, p, c) ==                                                     \* C11
   (c.op \in AppendOps /\ c.cls = "ok" /\ Exclusive(o, T(c)) /\ o.hd[T(c)].len + Len(c.s) <= o.hd[T(c)].cap) =>
